@@ -483,6 +483,14 @@ func kindName(e sched.Event) string {
 		return fmt.Sprintf("poolget(p%d,have=%d)->%d", e.Obj, e.A, e.B)
 	case simsync.KPoolPut:
 		return fmt.Sprintf("poolput(p%d)->keep=%d", e.Obj, e.B)
+	case simsync.KCondEnq:
+		return fmt.Sprintf("cond(c%d).Wait: queued", e.Obj)
+	case simsync.KCondWait:
+		return fmt.Sprintf("cond(c%d).Wait: waiting", e.Obj)
+	case simsync.KCondSignal:
+		return fmt.Sprintf("cond(c%d).Signal", e.Obj)
+	case simsync.KCondBroadcast:
+		return fmt.Sprintf("cond(c%d).Broadcast", e.Obj)
 	case sched.KAnnounce:
 		return fmt.Sprintf("lock(m%d) called: pending, readers hold it", e.Obj)
 	case sched.KStart:
